@@ -333,7 +333,7 @@ def no_database_removal(m):
         for bi, t in b.calls():
             da = t['f'].get('dargs', '')
             if da.startswith('std::collections::HashMap::<std::string::String, nundb::bo::Database>::') and \
-                    da.split('::')[-1] in ('remove', 'clear', 'retain', 'drain', 'remove_entry'):
+                    callee_decl(t).split('::')[-1] in ('remove', 'clear', 'retain', 'drain', 'remove_entry'):
                 return False
     return True
 
